@@ -365,6 +365,12 @@ def run(prog, ctx):
     ctx.rule("R04.4", "every fermionic contraction result (scalar results included) passes through resolve_combined_oddpos before it is returned")
     ctx.rule("R04.3", "phased sort: exchange => exactly one sign; pair removal => sign iff ket-then-bra; duplicates raise; cross-over sign; "
              "phase reaches the array only via phase_global")
+    ctx.rule("R04.5", "abstract evaluation: tensordot(b, a) followed by the fermionic transpose equals tensordot(a, b) (blocks, signs, labels)")
+    ctx.rule("R04.6", "abstract evaluation: the listing order of contracted axis pairs and fermionic transposes applied beforehand do not matter")
+    ctx.rule("R04.7", "abstract evaluation: three-tensor chains and triangles give the same blocks, signs and labels along both contraction orders")
+    from rules.sem_routes import check_routes
+
+    ctx.guarded("R04.7", prog.func("symmray.fermionic_core:tensordot_fermionic"), check_routes, prog, ctx)
     check_total_order(prog, ctx)
     check_comparison_only(prog, ctx)
     check_phased_sort(prog, ctx)
